@@ -5,6 +5,7 @@ import AdfObdd.CliWorldProofs
 import AdfObdd.CliCounter
 import AdfObdd.CliIOProofs
 import AdfObdd.CliHalt
+import AdfObdd.CliFuelBound
 import AdfObdd.HybridCli
 import AdfObdd.NatLexOrder
 import AdfObdd.Props.C03
@@ -125,6 +126,49 @@ theorem cli_faithful_every_large_bound (m : Cli.Mode) (f : Cli.Flags) (heu : SM.
         (blk.2.map (fun v => v.map storeIsConst)).Perm
           (Cli.specSection n (fms.map (fun φ => TT.ofFn n (fun a => φ.sem (fun v => a.testBit v)))) blk.1) :=
   CliF.runF_faithful_eventually m f heu n fms hl hn ha
+
+/-- **the fuel hypothesis from an EXPLICIT bound on**: C05's termination argument with the iterations
+counted gives `NConc.ngBound n = 2^(n+3)` (`C05.ng_search_halts_within_explicit_bound`); no search of an
+invocation on a framework with `n` statements hits a bound `≥ 2^(n+3)`, and the blocks are faithful -/
+theorem cli_faithful_within_explicit_bound (m : Cli.Mode) (f : Cli.Flags) (heu : SM.Heu) (n : Nat) (fms : List Fm)
+    (hl : fms.length = n) (hn : n ≤ VBOT) (ha : ∀ φ ∈ fms, NConc.atomsLt n φ) :
+    ∀ fuel, NConc.ngBound n ≤ fuel →
+      CliF.HaltedF fuel m f heu (buildNative n fms).1 n (buildNative n fms).2 ∧
+      ∀ blk ∈ CliF.runF fuel m f heu (buildNative n fms).1 n (buildNative n fms).2,
+        (blk.2.map (fun v => v.map storeIsConst)).Perm
+          (Cli.specSection n (fms.map (fun φ => TT.ofFn n (fun a => φ.sem (fun v => a.testBit v)))) blk.1) :=
+  fun fuel hf => ⟨CliF.haltedF_within m f heu n fms hl hn ha fuel hf,
+    CliF.runF_faithful fuel m f heu n fms hl hn ha (CliF.haltedF_within m f heu n fms hl hn ha fuel hf)⟩
+
+/-- **`CliF.Halted` holds for every framework with at most 16 statements** (`2^(16+3) = 524288 ≤ 10^6 <
+2^(17+3)`, `C05.explicit_bound_within_driver_bound_iff`): every mode, every flag set (in particular
+`--twoval`, `--stmng`), every heuristic. Beyond 16 statements the hypothesis `Halted` of `cli_faithful`
+remains: the Rust loop is unbounded, the bound is exponential, and for larger frameworks "halted within
+10^6" is established by evaluation only (the frameworks of the check's cli profile that run these flags
+have at most 6 statements: `2^9 = 512` iterations suffice). -/
+theorem halted_for_small_frameworks (m : Cli.Mode) (f : Cli.Flags) (heu : SM.Heu) (n : Nat) (fms : List Fm)
+    (hl : fms.length = n) (h16 : n ≤ 16) (ha : ∀ φ ∈ fms, NConc.atomsLt n φ) :
+    CliF.Halted m f heu (buildNative n fms).1 n (buildNative n fms).2 :=
+  CliF.halted_of_le_16 m f heu n fms hl h16 ha
+
+/-- **`cli_faithful` WITHOUT the fuel hypothesis** for frameworks with at most 16 statements -/
+theorem cli_faithful_small_frameworks (m : Cli.Mode) (f : Cli.Flags) (heu : SM.Heu) (n : Nat) (fms : List Fm)
+    (hl : fms.length = n) (h16 : n ≤ 16) (ha : ∀ φ ∈ fms, NConc.atomsLt n φ) :
+    ∀ blk ∈ Cli.run m f heu (buildNative n fms).1 n (buildNative n fms).2,
+      (blk.2.map (fun v => v.map storeIsConst)).Perm
+        (Cli.specSection n (fms.map (fun φ => TT.ofFn n (fun a => φ.sem (fun v => a.testBit v)))) blk.1) :=
+  cli_faithful m f heu n fms hl (by unfold VBOT; omega) ha (halted_for_small_frameworks m f heu n fms hl h16 ha)
+
+/-- non-vacuity (kernel-checked hypotheses): two statements attacking each other, hybrid mode, ALL flags
+including `--twoval --stmng`, any heuristic: every block of `Cli.run` is the specification's answer -/
+example (heu : SM.Heu) :
+    ∀ blk ∈ Cli.run .hybrid { grd := true, com := true, twoval := true, stm := true, stmng := true } heu
+        (buildNative 2 [.not (.atom 1), .not (.atom 0)]).1 2 (buildNative 2 [.not (.atom 1), .not (.atom 0)]).2,
+      (blk.2.map (fun v => v.map storeIsConst)).Perm
+        (Cli.specSection 2 ([Fm.not (.atom 1), .not (.atom 0)].map
+          (fun φ => TT.ofFn 2 (fun a => φ.sem (fun v => a.testBit v)))) blk.1) :=
+  cli_faithful_small_frameworks .hybrid _ heu 2 _ rfl (by decide)
+    (by intro f hf; simp at hf; rcases hf with rfl | rfl <;> simp [NConc.atomsLt])
 
 /-- two invocations of `Cli.run` that differ in the library mode only print, for every section both
 modes implement, permutations of one another. NOTE: in `Cli.run` the `.biodivine` arm is the native
@@ -435,11 +479,14 @@ It is (a) MONOTONE in the bound and a halted run does not depend on the bound (`
 "holds from some bound on" means: there is a threshold; (b) satisfiable for EVERY invocation on a
 well-formed framework in EVERY arm, in particular the hybrid arm with `--twoval` / `--stmng`
 (`halted_from_some_bound_on`; before: naive arm only); hence (c) `cli_text_faithful_every_large_bound`
-has no fuel hypothesis. RELATION TO THE DRIVER'S 1 000 000: none is proved - C05's termination
-argument is a well-founded measure without a number. By (a), `haltedParsed W 1000000 i st` holds iff the
-threshold of the invocation is ≤ 10^6; for the runs of the correspondence check this is established by
-EVALUATION only (the driver computes `runText … 1000000 …`; a search that hit the bound would print a
-prefix and be reported as a difference from the binary), not by the kernel. -/
+has no fuel hypothesis. RELATION TO THE DRIVER'S 1 000 000: C05's termination argument with the
+iterations counted gives the explicit threshold `2^(n+3)`, `n` = number of statements
+(`halted_text_within_explicit_bound`), so `haltedParsed W 1000000 i st` is PROVED for every file with at
+most 16 statements (`halted_text_for_small_frameworks`, `cli_text_faithful_small_frameworks`). For larger
+files the hypothesis remains: by (a), it holds iff the threshold of the invocation is ≤ 10^6, and for such
+runs of the correspondence check this is established by EVALUATION only (the driver computes
+`runText … 1000000 …`; a search that hit the bound would print a prefix and be reported as a difference
+from the binary), not by the kernel. -/
 
 open CliM CliMP ParserM FromParser in
 theorem fuel_monotone {T : Type} (W : World T) (i : Inv) (st : PState) {fuel fuel' : Nat}
@@ -498,6 +545,65 @@ example : ∃ F0, ∀ fuel, F0 ≤ fuel → ∃ blocks : List Block,
     (fun _ => drvWorld_dump)
   refine ⟨F0, fun fuel hf => ?_⟩
   obtain ⟨_, blocks, h1, h2, _⟩ := h fuel hf
+  exact ⟨blocks, h1, by rw [h2]; decide⟩
+
+open CliM CliMP ParserM FromParser in
+/-- **the fuel hypothesis of `cli_text_faithful` from an EXPLICIT bound on**: every arm, every flag set: no
+search of an invocation on a file with `n` statements hits a bound `≥ NConc.ngBound n = 2^(n+3)` -/
+theorem halted_text_within_explicit_bound {T : Type} (W : World T) (ok : WorldOK W) (i : Inv)
+    (fs : List Fact) (hwf : WellFormedAdf fs) (hn : (namesOf fs).length ≤ VBOT)
+    (hnames : i.mode = .hybrid → (namesOf fs).all bioNameOK = true)
+    (hone : i.mode = .hybrid → i.flags.stmrew = true → ((acsOf fs).map (·.1)).Nodup)
+    (hdump : i.mode = .hybrid → DumpOKW W ok) :
+    ∀ fuel, NConc.ngBound (namesOf fs).length ≤ fuel →
+      haltedParsed W fuel i (sortState W.anSort i.sort (PState.ofFacts fs)) = true :=
+  halted_text_within W ok i fs hwf hn hnames hone hdump
+
+open CliM CliMP ParserM FromParser in
+/-- **`haltedParsed … 1000000` holds for every file with at most 16 statements** (the driver's bound;
+`2^(16+3) ≤ 10^6`). Beyond that size the hypothesis of `cli_text_faithful` remains (evaluation only). -/
+theorem halted_text_for_small_frameworks {T : Type} (W : World T) (ok : WorldOK W) (i : Inv)
+    (fs : List Fact) (hwf : WellFormedAdf fs) (h16 : (namesOf fs).length ≤ 16)
+    (hnames : i.mode = .hybrid → (namesOf fs).all bioNameOK = true)
+    (hone : i.mode = .hybrid → i.flags.stmrew = true → ((acsOf fs).map (·.1)).Nodup)
+    (hdump : i.mode = .hybrid → DumpOKW W ok) :
+    haltedParsed W 1000000 i (sortState W.anSort i.sort (PState.ofFacts fs)) = true :=
+  halted_text_of_le_16 W ok i fs hwf h16 hnames hone hdump
+
+open CliM CliMP ParserM FromParser in
+/-- **`cli_text_faithful` at the driver's bound WITHOUT the fuel hypothesis** for files with at most 16
+statements -/
+theorem cli_text_faithful_small_frameworks {T : Type} (W : World T) (ok : WorldOK W) (i : Inv) (t : List Char)
+    (fs : List Fact) (hd : DerFile fs t) (hne : fs ≠ []) (hwf : WellFormedAdf fs)
+    (h16 : (namesOf fs).length ≤ 16)
+    (hnames : i.mode ≠ .naive → (namesOf fs).all bioNameOK = true)
+    (hone : i.mode ≠ .naive → i.flags.stmrew = true → ((acsOf fs).map (·.1)).Nodup)
+    (hdump : i.mode = .hybrid → DumpOKW W ok) :
+    ∃ blocks : List Block,
+      runText W 1000000 i t =
+        ⟨0, blocks.flatMap fun b => b.2.map (render (sortedNames W.anSort i.sort (namesOf fs)))⟩ ∧
+      blocks.map (·.1) = Cli.sections i.mode i.flags ∧
+      (∀ blk ∈ blocks, (blk.2.map (fun v => v.map storeIsConst)).Perm
+        (Cli.specSection (sortedNames W.anSort i.sort (namesOf fs)).length
+          (tablesD (sortedNames W.anSort i.sort (namesOf fs)).length
+            (SortModel.condFnsOn (sortedNames W.anSort i.sort (namesOf fs)) (condOf fs))) blk.1)) ∧
+      (∀ blk ∈ blocks, ∀ v ∈ blk.2, v.length = (sortedNames W.anSort i.sort (namesOf fs)).length) :=
+  cli_text_faithful W ok 1000000 i t fs hd hne hwf (by unfold VBOT; omega) hnames hone hdump
+    (halted_text_for_small_frameworks W ok i fs hwf h16
+      (fun hm => hnames (by rw [hm]; simp)) (fun hm => hone (by rw [hm]; simp)) hdump)
+
+open CliM CliMP ParserM FromParser in
+/-- non-vacuity, HYBRID arm with both search flags on the driver's world AT THE DRIVER'S BOUND
+(kernel-checked hypotheses, no existential over the bound): `s(b).s(a).ac(b,neg(a)).ac(a,neg(b)).` with
+`--twoval --stmng --stm` exits with status 0 and prints the three blocks -/
+example : ∃ blocks : List Block,
+    runText drvWorld 1000000 ⟨.hybrid, { twoval := true, stm := true, stmng := true }, .none, .simple⟩ exText =
+      ⟨0, blocks.flatMap fun b => b.2.map (render [['b'], ['a']])⟩ ∧
+    blocks.map (·.1) = [.twoval, .stm, .stmng] := by
+  obtain ⟨blocks, h1, h2, _⟩ := cli_text_faithful_small_frameworks drvWorld drvWorldOK
+    ⟨.hybrid, { twoval := true, stm := true, stmng := true }, .none, .simple⟩ exText exFacts
+    exText_der (by decide) (by decide) (by decide) (fun _ => by decide) (fun _ _ => by decide)
+    (fun _ => drvWorld_dump)
   exact ⟨blocks, h1, by rw [h2]; decide⟩
 
 open CliM CliMP ParserM FromParser in
@@ -737,6 +843,12 @@ end C15
 #print axioms C15.fuel_monotone
 #print axioms C15.halted_from_some_bound_on
 #print axioms C15.cli_text_faithful_every_large_bound
+#print axioms C15.cli_faithful_within_explicit_bound
+#print axioms C15.halted_for_small_frameworks
+#print axioms C15.cli_faithful_small_frameworks
+#print axioms C15.halted_text_within_explicit_bound
+#print axioms C15.halted_text_for_small_frameworks
+#print axioms C15.cli_text_faithful_small_frameworks
 #print axioms C15.store_world_faithful
 #print axioms C15.an_prints_in_natural_lexical_order
 #print axioms C15.cli_text_faithful
